@@ -4,11 +4,17 @@ import (
 	"strconv"
 	"strings"
 
+	metav1 "k8s.io/apimachinery/pkg/apis/meta/v1"
+	gatewayv1 "sigs.k8s.io/gateway-api/apis/v1"
+	gatewayv1beta1 "sigs.k8s.io/gateway-api/apis/v1beta1"
+
 	networking "istio.io/api/networking/v1alpha3"
+	"istio.io/istio/pilot/pkg/config/kube/gatewaycommon"
 	"istio.io/istio/pilot/pkg/model"
 	"istio.io/istio/pkg/config"
 	"istio.io/istio/pkg/config/constants"
 	"istio.io/istio/pkg/config/schema/gvk"
+	"istio.io/istio/pkg/kube/krt"
 	"istio.io/istio/pkg/spiffe"
 	"verifharness/internal/wire"
 )
@@ -19,32 +25,105 @@ import (
 // credentialName(s), TLS mode, caCertCredentialName), a proxy with or without VerifiedIdentity and a fake
 // PushContext.SecretAllowed (the ReferenceGrant outcome as a set of (kind, resourceName, namespace)).
 
+// grantCtl is the GatewayController behind PushContext.SecretAllowed: it delegates to the REAL ReferenceGrant
+// evaluation (gatewaycommon.ReferenceGrants.SecretAllowed over the real ReferenceGrantsCollection built from
+// gateway-api ReferenceGrant objects), exactly as the gateway controller does.
 type grantCtl struct {
 	model.FakeController
-	grants map[string]bool
-}
-
-func grantKey(listenerSet bool, rn, ns string) string {
-	k := "K"
-	if listenerSet {
-		k = "L"
-	}
-	return k + "\x00" + rn + "\x00" + ns
+	rg gatewaycommon.ReferenceGrants
 }
 
 func (g *grantCtl) SecretAllowed(ourKind config.GroupVersionKind, resourceName string, namespace string) bool {
-	return g.grants[grantKey(ourKind == gvk.ListenerSet, resourceName, namespace)]
+	return g.rg.SecretAllowed(nil, ourKind, resourceName, namespace)
 }
 
 func (g *grantCtl) Reconcile(*model.PushContext) {}
 
-type refsSUT struct {
-	grants map[string]bool
-	gws    []config.Config
+// rgSpec is one `rgrant` op: a ReferenceGrant object in namespace srcNs with one From and one To entry.
+type rgSpec struct{ srcNs, from, fromNs, to, name string }
+
+func (g rgSpec) object(i int) *gatewayv1beta1.ReferenceGrant {
+	from := gatewayv1beta1.ReferenceGrantFrom{Namespace: gatewayv1.Namespace(g.fromNs)}
+	switch g.from {
+	case "G":
+		from.Group, from.Kind = "gateway.networking.k8s.io", "Gateway"
+	case "L":
+		from.Group, from.Kind = "gateway.networking.k8s.io", "ListenerSet"
+	case "H":
+		from.Group, from.Kind = "gateway.networking.k8s.io", "HTTPRoute"
+	default:
+		from.Group, from.Kind = "example.com", "Gateway"
+	}
+	to := gatewayv1beta1.ReferenceGrantTo{}
+	switch g.to {
+	case "S":
+		to.Group, to.Kind = "", "Secret"
+	case "M":
+		to.Group, to.Kind = "", "ConfigMap"
+	case "V":
+		to.Group, to.Kind = "", "Service"
+	default:
+		to.Group, to.Kind = "example.com", "Secret"
+	}
+	if g.name != "*" {
+		n := gatewayv1.ObjectName(g.name)
+		to.Name = &n
+	}
+	return &gatewayv1beta1.ReferenceGrant{
+		ObjectMeta: metav1.ObjectMeta{Name: "rg" + strconv.Itoa(i), Namespace: g.srcNs},
+		Spec:       gatewayv1beta1.ReferenceGrantSpec{From: []gatewayv1beta1.ReferenceGrantFrom{from}, To: []gatewayv1beta1.ReferenceGrantTo{to}},
+	}
 }
 
-func (s *refsSUT) close() {}
-func (s *refsSUT) reset() { s.grants, s.gws = map[string]bool{}, nil }
+// buildGrants builds the real krt ReferenceGrants (collection + index) from the specs.
+func buildGrants(specs []rgSpec, stop chan struct{}) gatewaycommon.ReferenceGrants {
+	var objs []*gatewayv1beta1.ReferenceGrant
+	for i, g := range specs {
+		objs = append(objs, g.object(i))
+	}
+	static := krt.NewStaticCollection[*gatewayv1beta1.ReferenceGrant](nil, objs, krt.WithStop(stop))
+	coll := gatewaycommon.ReferenceGrantsCollection(static, krt.NewOptionsBuilder(stop, "verif-c11", nil))
+	coll.WaitUntilSynced(stop)
+	return gatewaycommon.BuildReferenceGrants(coll)
+}
+
+// has evaluates a spec list the way the oracle reads it (property level, not the krt machinery): is there a
+// ReferenceGrant object in the secret's namespace that names the requesting kind and namespace and the secret?
+func grantedBy(specs []rgSpec, listenerSet bool, toKind, secretNs, secretName, fromNs string) bool {
+	want := "G"
+	if listenerSet {
+		want = "L"
+	}
+	for _, g := range specs {
+		if g.from == want && g.to == toKind && g.srcNs == secretNs && g.fromNs == fromNs && (g.name == "*" || g.name == secretName) {
+			return true
+		}
+	}
+	return false
+}
+
+type refsSUT struct {
+	specs []rgSpec
+	gws   []config.Config
+	stop  chan struct{}
+	ctl   *grantCtl
+}
+
+func (s *refsSUT) close() { s.reset() }
+func (s *refsSUT) reset() {
+	if s.stop != nil {
+		close(s.stop)
+	}
+	*s = refsSUT{}
+}
+
+func (s *refsSUT) controller() *grantCtl {
+	if s.ctl == nil {
+		s.stop = make(chan struct{})
+		s.ctl = &grantCtl{rg: buildGrants(s.specs, s.stop)}
+	}
+	return s.ctl
+}
 
 func tlsMode(tok string) networking.ServerTLSSettings_TLSmode {
 	switch tok {
@@ -66,20 +145,21 @@ func (s *refsSUT) merge(f []string) *model.MergedGateway {
 		proxy.VerifiedIdentity = &spiffe.Identity{TrustDomain: wire.Dec(f[2]), Namespace: wire.Dec(f[3]), ServiceAccount: wire.Dec(f[4])}
 	}
 	ps := model.NewPushContext()
-	ps.GatewayAPIController = &grantCtl{grants: s.grants}
+	ps.GatewayAPIController = s.controller()
 	return model.VerifC11MergeGateways(s.gws, proxy, ps)
 }
 
 func (s *refsSUT) apply(f []string) string {
-	if s.grants == nil {
-		s.reset()
-	}
 	switch f[0] {
 	case "case":
 		s.reset()
 		return "ok"
-	case "grant":
-		s.grants[grantKey(f[1] == "L", wire.Dec(f[2]), wire.Dec(f[3]))] = true
+	case "rgrant":
+		s.specs = append(s.specs, rgSpec{srcNs: wire.Dec(f[1]), from: f[2], fromNs: wire.Dec(f[3]), to: f[4], name: wire.Dec(f[5])})
+		if s.ctl != nil { // grants changed after a merge: rebuild lazily
+			close(s.stop)
+			s.stop, s.ctl = nil, nil
+		}
 		return "ok"
 	case "gw":
 		ann := map[string]string{}
@@ -137,7 +217,7 @@ func genRefs(seed uint64, n int, outp string) {
 	nss := []string{"ns1", "ns2", "istio-system"}
 	sas := []string{"sa1", "sa2"}
 	creds := func(r *wire.Rng, own string) string {
-		name := wire.Pick(r, []string{"a", "b", "gw", "a-cacert"})
+		name := wire.Pick(r, []string{"a", "b", "gw", "a-cacert", "a-cacert-v2", "-cacert-x", "x-cacert-cacert"})
 		switch r.Intn(14) {
 		case 0, 1, 2:
 			return "kubernetes-gateway://" + own + "/" + name
@@ -177,13 +257,25 @@ func genRefs(seed uint64, n int, outp string) {
 			if r.Chance(1, 5) {
 				parentNs = wire.Pick(r, nss)
 			}
-			switch r.Intn(8) {
-			case 0, 1:
+			switch r.Intn(14) {
+			case 0, 1, 2:
 				parents = "ListenerSet/ls.gw" + strconv.Itoa(i)
-			case 2:
-				parents = "Gateway/gw" + strconv.Itoa(i) + ".default"
 			case 3:
+				parents = "Gateway/gw" + strconv.Itoa(i) + ".default"
+			case 4:
 				parents = "listenerset/x"
+			case 5:
+				parents = "Gateway/gw.default,ListenerSet/ls." + gns // comma-joined list: only the first entry decides
+			case 6:
+				parents = "ListenerSet/ls." + gns + ",Gateway/gw.default"
+			case 7:
+				parents = "Gateway/ListenerSet-x." + gns // a Gateway whose name mentions ListenerSet
+			case 8:
+				parents = "XListenerSet/y"
+			case 9:
+				parents = "ListenerSet" // no slash
+			case 10:
+				parents = wire.Pick(r, []string{"HTTPRoute/r.ns1,ListenerSet/x", " ListenerSet/x", "ListenerSet//", "ListenerSets/x"})
 			}
 			out.Line("gw", wire.Enc(gns), wire.Enc(saAnn), wire.Enc(parentNs), wire.Enc(parents))
 			for j, m := 0, 1+r.Intn(3); j < m; j++ {
@@ -209,16 +301,35 @@ func genRefs(seed uint64, n int, outp string) {
 				out.Line("srv", wire.B(r.Chance(14, 15)), wire.EncList(cns), wire.Enc(cn), mode, wire.Enc(ca))
 			}
 		}
-		// grants: some of the names actually used (resource-name form), for the proxy's or another namespace
+		// ReferenceGrant objects: mostly for secrets actually referenced (in the secret's namespace, from the proxy's
+		// namespace and kind), sometimes from the wrong kind / namespace, to the wrong kind, or name-restricted
 		for _, u := range used {
-			if u == "" || !r.Chance(1, 4) {
+			if u == "" || !strings.Contains(u, "://") || !r.Chance(1, 3) {
 				continue
 			}
-			rn := u
-			if !strings.Contains(u, "://") {
-				rn = "kubernetes://" + u
+			_, rest, _ := strings.Cut(u, "://")
+			p := strings.Split(rest, "/")
+			if len(p) < 2 {
+				continue
 			}
-			out.Line("grant", wire.Pick(r, []string{"K", "K", "K", "L"}), wire.Enc(rn), wire.Enc(wire.Pick(r, []string{pns, pns, pns, wire.Pick(r, nss)})))
+			name := "*"
+			if r.Chance(1, 3) {
+				name = p[1]
+				if r.Chance(1, 4) {
+					name = wire.Pick(r, []string{"a", "b", "gw"})
+				}
+			}
+			from := wire.Pick(r, []string{"G", "G", "G", "G", "L", "L", "H", "X"})
+			fromNs := wire.Pick(r, []string{pns, pns, pns, wire.Pick(r, nss)})
+			to := wire.Pick(r, []string{"S", "S", "S", "S", "S", "M", "V", "O"})
+			srcNs := p[0]
+			if r.Chance(1, 8) {
+				srcNs = wire.Pick(r, nss)
+			}
+			if srcNs == "" {
+				continue
+			}
+			out.Line("rgrant", wire.Enc(srcNs), from, wire.Enc(fromNs), to, wire.Enc(name))
 		}
 		// the same gateways seen by differently verified proxies
 		out.Line("merge", "1", "cluster.local", wire.Enc(pns), wire.Enc(psa))
@@ -283,17 +394,25 @@ func (s *refsSUT) oracleOp(f []string) string {
 				if ls {
 					lookup = g.Namespace
 				}
-				if s.grants[grantKey(ls, base, lookup)] {
-					ok = true
-				}
-				// namespace the reference names: first segment after the scheme, the verified namespace if there is none
+				// namespace / name the reference names: first two segments after the scheme; the verified namespace
+				// when there is a single segment (never for a grant: grants need an explicit namespace)
 				_, rest, found := strings.Cut(base, "://")
 				if !found {
 					continue
 				}
-				refNs := vns
+				refNs, refName, explicit := vns, rest, false
 				if i := strings.Index(rest, "/"); i >= 0 {
-					refNs = rest[:i]
+					refNs, refName, explicit = rest[:i], rest[i+1:], true
+					if j := strings.Index(refName, "/"); j >= 0 {
+						refName = refName[:j]
+					}
+				}
+				toKind := "S"
+				if strings.HasPrefix(base, "configmap://") {
+					toKind = "M"
+				}
+				if explicit && grantedBy(s.specs, ls, toKind, refNs, refName, lookup) {
+					ok = true
 				}
 				if refNs == lookup && (g.Namespace == vns || ls) {
 					ok = true
